@@ -28,6 +28,11 @@ func main() {
 		genJwsRead(r, "JWSREAD")
 	case "COSEREAD":
 		genCoseRead(r, "COSEREAD")
+	case "C02":
+		genC02(r)
+	case "C01", "C07", "C13":
+		genJwsRead(r, *prop)
+		genCoseRead(r, *prop)
 	case "C04":
 		genC04(r)
 	case "C05":
